@@ -587,7 +587,7 @@ impl Check for C18 {
     }
 
     fn rule(&self) -> String {
-        "Layer A: the C08 enumeration (exhaustive single faults + 200 seeded double faults around one intact packet per episode) delivered to 7 typed parsers, Unknown, Packet, ReportBlock, Compound, the 5 FCI parsers directly and parse_fci for all 10 pairs; plus the C11 tiling fault space around one compound per episode for Compound::parse. Every returned error is checked against facts computed from the bytes. Layer B: 4 streams per episode of 1-16 intact packets delivered in seeded fragments (short reads) to a reassembly loop that trusts Truncated.expected. evaluations = deliveries + streams. Non-trivial = a fault fired and the delivery is at least 4 bytes, or a fragmented stream; distinct = distinct (vector of per-parser result codes, fault-kind sequence, length in words) resp. (packets, fragmentation style, length class).".into()
+        "Layer A: the C08 enumeration (exhaustive single faults + 200 seeded double faults around one intact packet per episode) delivered to 7 typed parsers, Unknown, Packet, ReportBlock, Compound, the 5 FCI parsers directly and parse_fci for all 10 pairs; plus the C11 tiling fault space around one compound per episode for Compound::parse; plus, in the first 4096 episodes of a run, the exhaustive sweep of the 16-bit length field (all 65536 values; single packets of every type and compounds; real size = announced -4/-1/0/+1/+4). Every returned error is checked against facts computed from the bytes. Layer B: 4 streams per episode of 1-16 intact packets delivered in seeded fragments (short reads) to a reassembly loop that trusts Truncated.expected. evaluations = deliveries + streams. Non-trivial = a fault fired and the delivery is at least 4 bytes, or a fragmented stream; distinct = distinct (vector of per-parser result codes, fault-kind sequence, length in words) resp. (packets, fragmentation style, length class).".into()
     }
     fn assumptions(&self) -> Vec<String> {
         vec![
@@ -595,6 +595,7 @@ impl Check for C18 {
             "for Packet::parse the minimum and type are those of the variant the packet-type byte names; for the FCI parsers only the generic clauses apply".into(),
             "layer B puts only packets that Packet::parse accepts when intact on the stream, fragmentation is the only fault there".into(),
             "RFC minimum sizes hard-coded in the oracle".into(),
+            "where an exactness clause fixes what must be reported, an unwind of the parser is a violation of that clause; any other unwind is C01's finding (inconclusive here)".into(),
         ]
     }
     fn components(&self) -> J {
@@ -603,6 +604,6 @@ impl Check for C18 {
             .set("stub", J::Arr(vec!["channel: fault enumerator (A), stream fragmenter (B)".into(), "reassembly loop of a caller (B)".into(), "foreign peer RFC encoder (traffic)".into()]))
     }
     fn exhaustive_dimensions(&self) -> Vec<String> {
-        vec!["all truncation lengths per base (short reads at every position)".into(), "all 256 values of header byte 0 and of the packet-type byte per base".into()]
+        vec!["all truncation lengths per base (short reads at every position)".into(), "all 256 values of header byte 0 and of the packet-type byte per base".into(), "all 65536 values of the length field, once per run".into()]
     }
 }
